@@ -26,12 +26,8 @@ func refSlide(sq int, occ uint64, dirs [4][2]int) uint64 {
 				break
 			}
 			b := refBit(r*8 + f)
-			if !blocked {
-				out |= b
-			}
-			if occ&b != 0 {
-				blocked = true
-			}
+			out |= verifIte(blocked, 0, b)
+			blocked = verifOr(blocked, occ&b != 0)
 		}
 	}
 	return out
@@ -70,19 +66,439 @@ func refAttacks(kind Piece, sq int, occ uint64) uint64 {
 func refPawnCaptures(c Color, pawns uint64) uint64 {
 	var out uint64
 	for sq := 0; sq < 64; sq++ {
-		if pawns&refBit(sq) == 0 {
-			continue
-		}
 		f, r := sq&7, sq>>3
-		dr := 1
-		if c == Black {
-			dr = -1
-		}
+		var w, b uint64 // targets of a white / black pawn on sq
 		for _, df := range [2]int{-1, 1} {
-			if refOn(f+df, r+dr) {
-				out |= refBit((r+dr)*8 + f + df)
+			if refOn(f+df, r+1) {
+				w |= refBit((r+1)*8 + f + df)
+			}
+			if refOn(f+df, r-1) {
+				b |= refBit((r-1)*8 + f + df)
+			}
+		}
+		out |= verifIte(pawns&refBit(sq) != 0, verifIte(c == White, w, b), 0)
+	}
+	return out
+}
+
+// ---------------------------------------------------------------------------
+// Reference position: twelve piece sets, castling rights, e.p. target (0 = none).
+
+type refPos struct {
+	pc       [2][7]uint64 // [colour][kind], index 0 unused
+	castling uint8        // bit0 WK, bit1 WQ, bit2 BK, bit3 BQ
+	ep       int          // en-passant target square, 0 = none
+}
+
+func (r *refPos) side(c Color) uint64 {
+	return r.pc[c][Pawn] | r.pc[c][Bishop] | r.pc[c][Knight] | r.pc[c][Rook] | r.pc[c][Queen] | r.pc[c][King]
+}
+
+func (r *refPos) occ() uint64 { return r.side(White) | r.side(Black) }
+
+// kindAt returns the kind of the piece of colour c on sq (NoPiece if none).
+func (r *refPos) kindAt(c Color, sq int) Piece {
+	b := refBit(sq)
+	k := NoPiece
+	for p := Pawn; p <= King; p++ {
+		k = Piece(verifIte(r.pc[c][p]&b != 0, uint64(p), uint64(k)))
+	}
+	return k
+}
+
+// symRefPos: an arbitrary assignment of the twelve sets, rights and target.
+func symRefPos() *refPos {
+	r := &refPos{}
+	r.pc[White][Pawn] = nondetU64("wP")
+	r.pc[White][Bishop] = nondetU64("wB")
+	r.pc[White][Knight] = nondetU64("wN")
+	r.pc[White][Rook] = nondetU64("wR")
+	r.pc[White][Queen] = nondetU64("wQ")
+	r.pc[White][King] = nondetU64("wK")
+	r.pc[Black][Pawn] = nondetU64("bP")
+	r.pc[Black][Bishop] = nondetU64("bB")
+	r.pc[Black][Knight] = nondetU64("bN")
+	r.pc[Black][Rook] = nondetU64("bR")
+	r.pc[Black][Queen] = nondetU64("bQ")
+	r.pc[Black][King] = nondetU64("bK")
+	r.castling = nondetU8("castling")
+	r.ep = int(nondetU8("ep"))
+	return r
+}
+
+// refDisjoint: no square holds two pieces.
+func refDisjoint(r *refPos) bool {
+	var acc, clash uint64
+	for c := White; c <= Black; c++ {
+		for p := Pawn; p <= King; p++ {
+			clash |= acc & r.pc[c][p]
+			acc |= r.pc[c][p]
+		}
+	}
+	return clash == 0
+}
+
+// toPosition builds the morlock Position the way every real position is built:
+// colour sets are the unions, the rotated views are derived from the occupancy.
+func toPosition(r *refPos) *Position {
+	p := &Position{}
+	for c := White; c <= Black; c++ {
+		for k := Pawn; k <= King; k++ {
+			p.pieces[c][k] = Bitboard(r.pc[c][k])
+		}
+		p.pieces[c][NoPiece] = Bitboard(r.side(c))
+	}
+	p.rotated = NewRotatedBitboard(Bitboard(r.occ()))
+	p.castling = Castling(r.castling)
+	p.enpassant = Square(r.ep)
+	return p
+}
+
+func refPop1(b uint64) bool { return b != 0 && b&(b-1) == 0 }
+
+const (
+	refRank1 = uint64(0xff)
+	refRank8 = uint64(0xff) << 56
+)
+
+// refAttackMap: all squares attacked by colour c in r (sliders stop at the first occupied square).
+func refAttackMap(r *refPos, c Color) uint64 {
+	occ := r.occ()
+	rq := r.pc[c][Rook] | r.pc[c][Queen]
+	bq := r.pc[c][Bishop] | r.pc[c][Queen]
+	var out uint64
+	for a := 0; a < 64; a++ {
+		b := refBit(a)
+		out |= verifIte(rq&b != 0, refSlide(a, occ, refRookDirs), 0)
+		out |= verifIte(bq&b != 0, refSlide(a, occ, refBishopDirs), 0)
+		out |= verifIte(r.pc[c][Knight]&b != 0, refJump(a, refKnightOffs), 0)
+		out |= verifIte(r.pc[c][King]&b != 0, refJump(a, refKingOffs), 0)
+	}
+	return out | refPawnCaptures(c, r.pc[c][Pawn])
+}
+
+var refAllDirs = [8][2]int{{1, 0}, {-1, 0}, {0, 1}, {0, -1}, {1, 1}, {1, -1}, {-1, 1}, {-1, -1}}
+
+// refBitAt: the bit of square (f, r), or 0 when (f, r) is off the board. Works for symbolic coordinates.
+func refBitAt(f, r int) uint64 {
+	on := verifAnd(verifAnd(f >= 0, f <= 7), verifAnd(r >= 0, r <= 7))
+	return verifIte(on, uint64(1)<<uint((r*8+f)&63), 0)
+}
+
+// refAttacked: is square sq attacked by a piece of colour `by`? Written from the target's
+// point of view: along each of the eight rays from sq the first occupied square decides
+// (rook/queen on ranks and files, bishop/queen on diagonals); knight and king by offset;
+// a pawn attacks the two squares diagonally in front of it. sq may be symbolic.
+func refAttacked(r *refPos, by Color, sq int) bool {
+	occ := r.occ()
+	rq := r.pc[by][Rook] | r.pc[by][Queen]
+	bq := r.pc[by][Bishop] | r.pc[by][Queen]
+	f0, r0 := sq&7, sq>>3
+	att := false
+	for di, d := range refAllDirs {
+		sl := rq
+		if di >= 4 {
+			sl = bq
+		}
+		f, rr := f0, r0
+		open := true
+		for i := 0; i < 7; i++ {
+			f += d[0]
+			rr += d[1]
+			b := refBitAt(f, rr)
+			att = verifOr(att, verifAnd(open, sl&b != 0))
+			open = verifAnd(open, verifAnd(b != 0, occ&b == 0))
+		}
+	}
+	for _, d := range refKnightOffs {
+		att = verifOr(att, r.pc[by][Knight]&refBitAt(f0+d[0], r0+d[1]) != 0)
+	}
+	for _, d := range refKingOffs {
+		att = verifOr(att, r.pc[by][King]&refBitAt(f0+d[0], r0+d[1]) != 0)
+	}
+	// a white pawn on (f+-1, r-1) attacks (f, r); a black pawn on (f+-1, r+1)
+	dr := -1
+	if by == Black {
+		dr = 1
+	}
+	att = verifOr(att, r.pc[by][Pawn]&(refBitAt(f0-1, r0+dr)|refBitAt(f0+1, r0+dr)) != 0)
+	return att
+}
+
+// refKingSq: square of the (single) king of colour c; symbolic ladder over the 64 squares.
+func refKingSq(r *refPos, c Color) int {
+	k := 0
+	for a := 0; a < 64; a++ {
+		k = int(verifIte(r.pc[c][King]&refBit(a) != 0, uint64(a), uint64(k)))
+	}
+	return k
+}
+
+// specAttackboard is the specification by which Attackboard is summarised in the harnesses
+// that do not target the tables themselves; its equivalence with the real Attackboard for
+// every square and occupancy is the C06 table lemma (obligations *_table, rotated_xor).
+func specAttackboard(bb RotatedBitboard, sq Square, piece Piece) Bitboard {
+	if piece == Pawn || piece == NoPiece || piece > King {
+		panic("invalid piece or Pawn")
+	}
+	return Bitboard(refOfficerFrom(piece, int(sq), uint64(bb.rot)))
+}
+
+// refLegalPos: what "legal chess position with `turn` to move" means for the harnesses.
+func refLegalPos(r *refPos, turn Color) bool {
+	if !refDisjoint(r) {
+		return false
+	}
+	if !refPop1(r.pc[White][King]) || !refPop1(r.pc[Black][King]) {
+		return false
+	}
+	if (r.pc[White][Pawn]|r.pc[Black][Pawn])&(refRank1|refRank8) != 0 {
+		return false
+	}
+	if r.castling > 15 {
+		return false
+	}
+	// a castling right implies king and rook on their home squares
+	if r.castling&1 != 0 && (r.pc[White][King]&refBit(3) == 0 || r.pc[White][Rook]&refBit(0) == 0) {
+		return false
+	}
+	if r.castling&2 != 0 && (r.pc[White][King]&refBit(3) == 0 || r.pc[White][Rook]&refBit(7) == 0) {
+		return false
+	}
+	if r.castling&4 != 0 && (r.pc[Black][King]&refBit(59) == 0 || r.pc[Black][Rook]&refBit(56) == 0) {
+		return false
+	}
+	if r.castling&8 != 0 && (r.pc[Black][King]&refBit(59) == 0 || r.pc[Black][Rook]&refBit(63) == 0) {
+		return false
+	}
+	// en-passant target: behind a pawn of the side that just moved, both squares behind it empty
+	if r.ep != 0 {
+		occ := r.occ()
+		if turn == White {
+			// black just played e7-e5: target on rank 6 (index 5), pawn on rank 5, origin on rank 7 empty
+			if r.ep>>3 != 5 || r.ep > 63 {
+				return false
+			}
+			if occ&refBit(r.ep) != 0 || occ&refBit(r.ep+8) != 0 || r.pc[Black][Pawn]&refBit(r.ep-8) == 0 {
+				return false
+			}
+		} else {
+			if r.ep>>3 != 2 {
+				return false
+			}
+			if occ&refBit(r.ep) != 0 || occ&refBit(r.ep-8) != 0 || r.pc[White][Pawn]&refBit(r.ep+8) == 0 {
+				return false
 			}
 		}
 	}
+	// the side that is not to move must not be in check
+	return !refAttacked(r, turn, refKingSq(r, turn.Opponent()))
+}
+
+// ---------------------------------------------------------------------------
+// Moves: reference pseudo-legality ("GENFORM"), successor and legality.
+
+func symMove() Move {
+	return Move{
+		Type:      MoveType(nondetU8("m.type")),
+		From:      Square(nondetU8("m.from")),
+		To:        Square(nondetU8("m.to")),
+		Piece:     Piece(nondetU8("m.piece")),
+		Promotion: Piece(nondetU8("m.promo")),
+		Capture:   Piece(nondetU8("m.capture")),
+	}
+}
+
+// refSlideFrom / refJumpFrom: attack set of a piece on a (possibly symbolic) square,
+// as a selection among the 64 concrete origins.
+func refOfficerFrom(kind Piece, from int, occ uint64) uint64 {
+	var out uint64
+	for a := 0; a < 64; a++ {
+		out |= verifIte(from == a, refAttacks(kind, a, occ), 0)
+	}
 	return out
+}
+
+func refIsPromoKind(p Piece) bool {
+	return p == Queen || p == Rook || p == Knight || p == Bishop
+}
+
+// refGenForm: m is, field for field, a pseudo-legal move of the rules for `turn` in r:
+// the right piece on From, To reachable by that piece's movement rule, the move kind,
+// captured piece and promotion piece describing what the move does.
+func refGenForm(r *refPos, turn Color, m Move) bool {
+	from, to := int(m.From), int(m.To)
+	if from > 63 || to > 63 {
+		return false
+	}
+	opp := turn.Opponent()
+	occ := r.occ()
+	own, enemy := r.side(turn), r.side(opp)
+	fb, tb := refBit(from), refBit(to)
+	kind := r.kindAt(turn, from)
+	if own&fb == 0 || kind != m.Piece {
+		return false
+	}
+	victim := r.kindAt(opp, to)
+	toEmpty := occ&tb == 0
+	toEnemy := enemy&tb != 0
+	fwd := 8
+	startRank, promoFrom := 1, 6
+	if turn == Black {
+		fwd = -8
+		startRank, promoFrom = 6, 1
+	}
+	rank := from >> 3
+	pawnCap := refPawnCaptures(turn, fb)&tb != 0
+	switch m.Type {
+	case Normal:
+		if kind == Pawn || kind == NoPiece {
+			return false
+		}
+		return refOfficerFrom(kind, from, occ)&tb != 0 && toEmpty && m.Capture == NoPiece && m.Promotion == NoPiece
+	case Capture:
+		if m.Promotion != NoPiece || !toEnemy || m.Capture != victim {
+			return false
+		}
+		if kind == Pawn {
+			return pawnCap && rank != promoFrom
+		}
+		return refOfficerFrom(kind, from, occ)&tb != 0
+	case Push:
+		return kind == Pawn && to == from+fwd && toEmpty && rank != promoFrom && m.Capture == NoPiece && m.Promotion == NoPiece
+	case Jump:
+		return kind == Pawn && rank == startRank && to == from+2*fwd && toEmpty && occ&refBit(from+fwd) == 0 && m.Capture == NoPiece && m.Promotion == NoPiece
+	case EnPassant:
+		return kind == Pawn && r.ep != 0 && to == r.ep && pawnCap && m.Capture == NoPiece && m.Promotion == NoPiece
+	case Promotion:
+		return kind == Pawn && rank == promoFrom && to == from+fwd && toEmpty && m.Capture == NoPiece && refIsPromoKind(m.Promotion)
+	case CapturePromotion:
+		return kind == Pawn && rank == promoFrom && pawnCap && toEnemy && m.Capture == victim && refIsPromoKind(m.Promotion)
+	case KingSideCastle:
+		if kind != King || m.Capture != NoPiece || m.Promotion != NoPiece {
+			return false
+		}
+		if turn == White {
+			return r.castling&1 != 0 && from == 3 && to == 1 && occ&(refBit(1)|refBit(2)) == 0
+		}
+		return r.castling&4 != 0 && from == 59 && to == 57 && occ&(refBit(57)|refBit(58)) == 0
+	case QueenSideCastle:
+		if kind != King || m.Capture != NoPiece || m.Promotion != NoPiece {
+			return false
+		}
+		if turn == White {
+			return r.castling&2 != 0 && from == 3 && to == 5 && occ&(refBit(4)|refBit(5)|refBit(6)) == 0
+		}
+		return r.castling&8 != 0 && from == 59 && to == 61 && occ&(refBit(60)|refBit(61)|refBit(62)) == 0
+	}
+	return false
+}
+
+// refSuccessor: the position the rules prescribe after the pseudo-legal move m.
+func refSuccessor(r *refPos, turn Color, m Move) *refPos {
+	n := &refPos{}
+	*n = *r
+	opp := turn.Opponent()
+	from, to := int(m.From), int(m.To)
+	fb, tb := refBit(from), refBit(to)
+	// whatever stands on the destination is captured
+	for k := Pawn; k <= King; k++ {
+		n.pc[opp][k] &^= tb
+	}
+	placed := m.Piece
+	if m.Type == Promotion || m.Type == CapturePromotion {
+		placed = m.Promotion
+	}
+	for k := Pawn; k <= King; k++ {
+		n.pc[turn][k] &^= fb
+		if k == placed {
+			n.pc[turn][k] |= tb
+		}
+	}
+	if m.Type == EnPassant {
+		// the captured pawn stands behind the target square
+		if turn == White {
+			n.pc[opp][Pawn] &^= refBit(to - 8)
+		} else {
+			n.pc[opp][Pawn] &^= refBit(to + 8)
+		}
+	}
+	if m.Type == KingSideCastle {
+		// rook h -> f
+		if turn == White {
+			n.pc[turn][Rook] = n.pc[turn][Rook]&^refBit(0) | refBit(2)
+		} else {
+			n.pc[turn][Rook] = n.pc[turn][Rook]&^refBit(56) | refBit(58)
+		}
+	}
+	if m.Type == QueenSideCastle {
+		// rook a -> d
+		if turn == White {
+			n.pc[turn][Rook] = n.pc[turn][Rook]&^refBit(7) | refBit(4)
+		} else {
+			n.pc[turn][Rook] = n.pc[turn][Rook]&^refBit(63) | refBit(60)
+		}
+	}
+	// castling rights: dropped when the king or a rook leaves, or a rook is captured on, its home square
+	lost := uint8(0)
+	if from == 3 {
+		lost |= 1 | 2
+	}
+	if from == 0 || to == 0 {
+		lost |= 1
+	}
+	if from == 7 || to == 7 {
+		lost |= 2
+	}
+	if from == 59 {
+		lost |= 4 | 8
+	}
+	if from == 56 || to == 56 {
+		lost |= 4
+	}
+	if from == 63 || to == 63 {
+		lost |= 8
+	}
+	n.castling = r.castling &^ lost
+	// en-passant target only directly after a double step
+	n.ep = 0
+	if m.Type == Jump {
+		if turn == White {
+			n.ep = from + 8
+		} else {
+			n.ep = from - 8
+		}
+	}
+	return n
+}
+
+// refLegal: a pseudo-legal move is legal iff it does not leave the mover's king attacked,
+// and castling additionally requires that the king is not in check and does not cross an attacked square.
+func refLegal(r *refPos, turn Color, m Move) bool {
+	opp := turn.Opponent()
+	if m.Type == KingSideCastle || m.Type == QueenSideCastle {
+		// the king may not be in check nor cross an attacked square
+		from := int(m.From)
+		cross := from - 1
+		if m.Type == QueenSideCastle {
+			cross = from + 1
+		}
+		if refAttacked(r, opp, from) || refAttacked(r, opp, cross) {
+			return false
+		}
+	}
+	n := refSuccessor(r, turn, m)
+	return !refAttacked(n, opp, refKingSq(n, turn))
+}
+
+// samePosition: the morlock position p shows exactly the reference position n in every view.
+func samePlacement(p *Position, n *refPos) bool {
+	ok := true
+	for c := White; c <= Black; c++ {
+		for k := Pawn; k <= King; k++ {
+			ok = verifAnd(ok, uint64(p.pieces[c][k]) == n.pc[c][k])
+		}
+		ok = verifAnd(ok, uint64(p.pieces[c][NoPiece]) == n.side(c))
+	}
+	return ok
 }
